@@ -5,12 +5,15 @@
 //
 // Leaves: `transform(b: u128, &ENC_TABLE)` (= L S), `transform(b, &DEC_TABLE)` (= L^-1 S^-1), `sub_bytes(b: u128, sbox)`.
 // L: sub_bytes directly (kuz_soft_leaf_sub_bytes); rows of the tables read exactly as transform reads them (pointer cast to
-//    [[u128; 256]; 16]) vs the oracle (kuz_soft_leaf_rows); transform on every word with ONE arbitrary octet at a fixed
-//    position and fifteen zero octets vs L S / L^-1 S^-1 of the oracle (kuz_soft_leaf_tf_*: which table, which row, which
-//    lane, XOR accumulation); the general 128-bit statement then follows from the loop having no cross-octet data flow (one
-//    `res ^= table[i][block[i]]` per octet) and the linearity of L / L^-1 (kz_common::kuz_lin_l / kuz_lin_linv).  The 128-bit
-//    query itself needs sixteen symbolic-index 128-bit reads of a constant 64 KiB array and does not fit in memory
-//    (measured on the sse2 twin: > 24 GB).
+//    [[u128; 256]; 16]) vs the oracle (kuz_soft_leaf_rows, all 2 x 4096 rows); transform on every word with ONE arbitrary
+//    octet at a fixed position and fifteen zero octets vs L S / L^-1 S^-1 of the oracle (kuz_soft_leaf_tf_one: real table,
+//    row, lane, XOR accumulation; position 9 for ENC_TABLE, 6 for DEC_TABLE; 16 GB per pair of calls, so not all positions);
+//    the general 128-bit statement then follows from the loop having no cross-octet data flow (one
+//    `res ^= table[i][block[i]]` per octet, by inspection) and the linearity of L / L^-1 (kz_common::kuz_lin_l / kuz_lin_linv).
+//    NOT solver-checked for this back end: transform(b, &T) == XOR_p T[p][b_p] for all 2^128 b in one query -- with the real
+//    constant tables it needs sixteen symbolic-index 128-bit reads of a 64 KiB array (measured on the sse2 twin: > 24 GB),
+//    with an arbitrary (unconstrained) table CBMC ran out of memory at 23.7 GB during propositional reduction; the array
+//    indexing cannot be stubbed (the sse2 back end's flow lemma stubs the load intrinsic instead).
 use super::kz_common::{self as k, Route};
 use super::prelude::*;
 use crate::big_soft::backends::{sub_bytes, transform};
@@ -81,7 +84,7 @@ fn view(t: &Table) -> &[[u128; 256]; 16] {
     unsafe { &*(t.0.as_ptr().cast()) }
 }
 
-//@ harness name=kuz_soft_leaf_rows prop=C07,C20 tier=thorough bits=12 est=250 desc="L: every row of the fused tables in the [[u128; 256]; 16] view: ENC_TABLE[p][v] == L(pi(v) at octet p, 0 elsewhere), DEC_TABLE[p][v] == L^-1(pi^-1(v) at octet p, 0 elsewhere), p and v symbolic (all 2 x 4096 rows)"
+//@ harness name=kuz_soft_leaf_rows prop=C07,C20 tier=thorough bits=12 est=316 desc="L: every row of the fused tables in the [[u128; 256]; 16] view: ENC_TABLE[p][v] == L(pi(v) at octet p, 0 elsewhere), DEC_TABLE[p][v] == L^-1(pi^-1(v) at octet p, 0 elsewhere), p and v symbolic (all 2 x 4096 rows)"
 verif_harness! {
     name: kuz_soft_leaf_rows,
     bytes: 2,
@@ -117,7 +120,7 @@ fn tf_pos(inp: &[u8], dec: bool, lo: usize, hi: usize) -> Option<bool> {
     Some(true)
 }
 
-//@ harness name=kuz_soft_leaf_tf_one prop=C07,C20 tier=thorough bits=8 est=300 desc="L: transform(b, &ENC_TABLE) == oracle L(S(b)) for b = arbitrary octet at position 9, zero elsewhere, and transform(b, &DEC_TABLE) == oracle L^-1(S^-1(b)) for b = arbitrary octet at position 6, zero elsewhere (table, row, lane, XOR accumulation of the real loop; one position per table)"
+//@ harness name=kuz_soft_leaf_tf_one prop=C07,C20 tier=thorough bits=8 est=151 mem=30 need=18 desc="L: transform(b, &ENC_TABLE) == oracle L(S(b)) for b = arbitrary octet at position 9, zero elsewhere, and transform(b, &DEC_TABLE) == oracle L^-1(S^-1(b)) for b = arbitrary octet at position 6, zero elsewhere (real tables, row, lane, XOR accumulation of the real loop in one query; one position per table; measured 16 GB)"
 verif_harness! {
     name: kuz_soft_leaf_tf_one,
     bytes: 1,
@@ -130,7 +133,7 @@ verif_harness! {
 
 // ---------------------------------------------------------------------------------------------------------- key schedule
 
-//@ harness name=kuz_soft_keys prop=C07,C20 tier=quick bits=256 stub=1 est=54 quick=C20 desc="W: round keys of KuznyechikEnc::new(key) (big_soft expand_enc_keys) == oracle K1..K10 (Feistel key schedule with the computed C_1..C_32) for all 2^256 keys; transform(., &ENC_TABLE) and the oracle's L S are ONE uninterpreted function (32 applications per side)"
+//@ harness name=kuz_soft_keys prop=C07,C20 tier=quick bits=256 stub=1 est=62 quick=C20 desc="W: round keys of KuznyechikEnc::new(key) (big_soft expand_enc_keys) == oracle K1..K10 (Feistel key schedule with the computed C_1..C_32) for all 2^256 keys; transform(., &ENC_TABLE) and the oracle's L S are ONE uninterpreted function (32 applications per side)"
 verif_harness! {
     name: kuz_soft_keys,
     bytes: 32,
@@ -143,7 +146,7 @@ verif_harness! {
 // transform / sub_bytes := S, L uninterpreted inverse pairs (kz_common); arbitrary round keys (a superset of the key schedule's
 // outputs): with kuz_soft_keys this is conformance for all keys.
 
-//@ harness name=kuz_soft_enc_rk prop=C07,C03,C12,C20 tier=quick bits=1408 stub=1 est=25 quick=C03 desc="W: KuznyechikEnc over arbitrary round keys: encrypt_block == oracle E (9 LSX rounds + X), all round keys, all blocks"
+//@ harness name=kuz_soft_enc_rk prop=C07,C03,C12,C20 tier=quick bits=1408 stub=1 est=26 quick=C03 desc="W: KuznyechikEnc over arbitrary round keys: encrypt_block == oracle E (9 LSX rounds + X), all round keys, all blocks"
 verif_harness! {
     name: kuz_soft_enc_rk,
     bytes: 160 + 16,
@@ -151,7 +154,7 @@ verif_harness! {
     stubs: [(crate::big_soft::backends::transform, stub_transform), (crate::big_soft::backends::sub_bytes, stub_sub_bytes)],
     prop: |inp| { k::w_enc_rk(inp, Route::Enc) }
 }
-//@ harness name=kuz_soft_enc_rk_clone prop=C12,C20 tier=thorough bits=1408 stub=1 est=60 desc="W: clone of a KuznyechikEnc: encrypt_block == oracle E, all round keys, all blocks"
+//@ harness name=kuz_soft_enc_rk_clone prop=C12,C20 tier=thorough bits=1408 stub=1 est=25 desc="W: clone of a KuznyechikEnc: encrypt_block == oracle E, all round keys, all blocks"
 verif_harness! {
     name: kuz_soft_enc_rk_clone,
     bytes: 160 + 16,
@@ -159,7 +162,7 @@ verif_harness! {
     stubs: [(crate::big_soft::backends::transform, stub_transform), (crate::big_soft::backends::sub_bytes, stub_sub_bytes)],
     prop: |inp| { k::w_enc_rk(inp, Route::EncClone) }
 }
-//@ harness name=kuz_soft_enc_rk_val prop=C12,C03,C20 tier=thorough bits=1408 stub=1 est=60 desc="W: Kuznyechik::from(enc) (by value; runs the real inv_enc_keys too): encrypt_block == oracle E, all round keys, all blocks"
+//@ harness name=kuz_soft_enc_rk_val prop=C12,C03,C20 tier=thorough bits=1408 stub=1 est=52 desc="W: Kuznyechik::from(enc) (by value; runs the real inv_enc_keys too): encrypt_block == oracle E, all round keys, all blocks"
 verif_harness! {
     name: kuz_soft_enc_rk_val,
     bytes: 160 + 16,
@@ -175,7 +178,7 @@ verif_harness! {
     stubs: [(crate::big_soft::backends::transform, stub_transform), (crate::big_soft::backends::sub_bytes, stub_sub_bytes)],
     prop: |inp| { k::w_enc_rk(inp, Route::Ref) }
 }
-//@ harness name=kuz_soft_enc_rk_refclone prop=C12,C20 tier=thorough bits=1408 stub=1 est=60 desc="W: Kuznyechik::from(&enc).clone(): encrypt_block == oracle E, all round keys, all blocks"
+//@ harness name=kuz_soft_enc_rk_refclone prop=C12,C20 tier=thorough bits=1408 stub=1 est=63 desc="W: Kuznyechik::from(&enc).clone(): encrypt_block == oracle E, all round keys, all blocks"
 verif_harness! {
     name: kuz_soft_enc_rk_refclone,
     bytes: 160 + 16,
@@ -192,7 +195,7 @@ verif_harness! {
     stubs: [(crate::big_soft::backends::transform, stub_transform), (crate::big_soft::backends::sub_bytes, stub_sub_bytes)],
     prop: |inp| { k::w_par_enc::<3>(inp) }
 }
-//@ harness name=kuz_soft_par4 prop=C04,C20 tier=thorough bits=1792 stub=1 est=150 desc="W: KuznyechikEnc::encrypt_blocks on 4 blocks (one 3-wide batch + a tail of one) == four encrypt_block calls; arbitrary round keys, all block contents"
+//@ harness name=kuz_soft_par4 prop=C04,C20 tier=thorough bits=1792 stub=1 est=258 need=9 desc="W: KuznyechikEnc::encrypt_blocks on 4 blocks (one 3-wide batch + a tail of one) == four encrypt_block calls; arbitrary round keys, all block contents"
 verif_harness! {
     name: kuz_soft_par4,
     bytes: 160 + 64,
@@ -222,7 +225,7 @@ verif_harness! {
     stubs: [(crate::big_soft::backends::transform, stub_transform), (crate::big_soft::backends::sub_bytes, stub_sub_bytes)],
     prop: |inp| { k::w_dec_rk(inp, Route::Ref, false, true) }
 }
-//@ harness name=kuz_soft_dec_rk_refclone prop=C12,C20 tier=thorough bits=1408 stub=1 est=250 desc="W: KuznyechikDec::from(&enc).clone(): decrypt_block == oracle D, all round keys, all blocks (linearity instances of L^-1 assumed)"
+//@ harness name=kuz_soft_dec_rk_refclone prop=C12,C20 tier=thorough bits=1408 stub=1 est=140 desc="W: KuznyechikDec::from(&enc).clone(): decrypt_block == oracle D, all round keys, all blocks (linearity instances of L^-1 assumed)"
 verif_harness! {
     name: kuz_soft_dec_rk_refclone,
     bytes: 160 + 16,
@@ -230,7 +233,7 @@ verif_harness! {
     stubs: [(crate::big_soft::backends::transform, stub_transform), (crate::big_soft::backends::sub_bytes, stub_sub_bytes)],
     prop: |inp| { k::w_dec_rk(inp, Route::RefClone, false, true) }
 }
-//@ harness name=kuz_soft_both_dec_rk_val prop=C07,C03,C12,C20 tier=thorough bits=1408 stub=1 est=250 desc="W: Kuznyechik::from(enc) (by value): decrypt_block == oracle D, all round keys, all blocks (linearity instances of L^-1 assumed)"
+//@ harness name=kuz_soft_both_dec_rk_val prop=C07,C03,C12,C20 tier=thorough bits=1408 stub=1 est=136 desc="W: Kuznyechik::from(enc) (by value): decrypt_block == oracle D, all round keys, all blocks (linearity instances of L^-1 assumed)"
 verif_harness! {
     name: kuz_soft_both_dec_rk_val,
     bytes: 160 + 16,
@@ -246,7 +249,7 @@ verif_harness! {
     stubs: [(crate::big_soft::backends::transform, stub_transform), (crate::big_soft::backends::sub_bytes, stub_sub_bytes)],
     prop: |inp| { k::w_dec_rk(inp, Route::Ref, true, true) }
 }
-//@ harness name=kuz_soft_both_dec_rk_refclone prop=C12,C20 tier=thorough bits=1408 stub=1 est=250 desc="W: Kuznyechik::from(&enc).clone(): decrypt_block == oracle D, all round keys, all blocks (linearity instances of L^-1 assumed)"
+//@ harness name=kuz_soft_both_dec_rk_refclone prop=C12,C20 tier=thorough bits=1408 stub=1 est=134 desc="W: Kuznyechik::from(&enc).clone(): decrypt_block == oracle D, all round keys, all blocks (linearity instances of L^-1 assumed)"
 verif_harness! {
     name: kuz_soft_both_dec_rk_refclone,
     bytes: 160 + 16,
@@ -257,7 +260,7 @@ verif_harness! {
 
 // ---------------------------------------------------------------------------------------------------------- round trips
 
-//@ harness name=kuz_soft_rt_enc_dec prop=C01,C20 tier=thorough bits=1408 stub=1 est=250 desc="W: KuznyechikEnc encrypts, KuznyechikDec::from(&enc) decrypts: result == b, arbitrary round keys, all blocks (S, L uninterpreted inverse pairs, linearity instances of L^-1 assumed)"
+//@ harness name=kuz_soft_rt_enc_dec prop=C01,C20 tier=thorough bits=1408 stub=1 est=139 desc="W: KuznyechikEnc encrypts, KuznyechikDec::from(&enc) decrypts: result == b, arbitrary round keys, all blocks (S, L uninterpreted inverse pairs, linearity instances of L^-1 assumed)"
 verif_harness! {
     name: kuz_soft_rt_enc_dec,
     bytes: 160 + 16,
@@ -273,7 +276,7 @@ verif_harness! {
     stubs: [(crate::big_soft::backends::transform, stub_transform), (crate::big_soft::backends::sub_bytes, stub_sub_bytes)],
     prop: |inp| { k::w_roundtrip_rk(inp, 1, true) }
 }
-//@ harness name=kuz_soft_rt_de prop=C01,C20 tier=thorough bits=1408 stub=1 est=250 desc="W: Kuznyechik::from(&enc): enc(dec(b)) == b, arbitrary round keys, all blocks (S, L uninterpreted inverse pairs, linearity instances of L^-1 assumed)"
+//@ harness name=kuz_soft_rt_de prop=C01,C20 tier=thorough bits=1408 stub=1 est=176 desc="W: Kuznyechik::from(&enc): enc(dec(b)) == b, arbitrary round keys, all blocks (S, L uninterpreted inverse pairs, linearity instances of L^-1 assumed)"
 verif_harness! {
     name: kuz_soft_rt_de,
     bytes: 160 + 16,
